@@ -120,5 +120,6 @@ func (e *ExecOp) CloneWith(ctx ActionContext) Action {
 		Stdout:         safeRenderStrPointer(e.Stdout, ctx.TemplateEngine(), ss),
 		Stderr:         safeRenderStrPointer(e.Stderr, ctx.TemplateEngine(), ss),
 		ValidExitCodes: safeCopyIntSlice(e.ValidExitCodes),
+		SaveExitCodeTo: safeRenderStrPointer(e.SaveExitCodeTo, ctx.TemplateEngine(), ss),
 	}
 }
